@@ -61,6 +61,11 @@ def run(chk, tier):
     chk.rule("R-LINKFREE", "an object handed to an insertion function (which links, merges-and-frees or frees it) is never released afterwards by its creator: no feasible path from an insertion of x to hwloc_free_unlinked_object(x) (may-dataflow + correlated-condition path search)")
     nlf = linkfree.run(chk, P, units=("topology-xml.c",))
     chk.floor("R-LINKFREE", "release sites in the XML import code", nlf, 1)
+    chk.rule("R-GPNEXT", "an object identifier converted from input keeps the allocator ahead of it: explored at the boundary (topology->next_gp_index == K, imported gp_index == K), "
+             "every exit after the store leaves next_gp_index > K -- otherwise the next object created gets a duplicate gp_index")
+    import gpnext
+    ngp = gpnext.run(chk, P, ["topology-xml.c"])
+    chk.floor("R-GPNEXT", "imported identifier stores", ngp, 1)
     import uninit
     uninit.wire(chk, P, ["topology-xml.c", "topology-xml-nolibxml.c", "topology-xml-libxml.c"], 5)
     chk.decided += ["no local allocation of the XML import/diff code is dropped on a path to a return (leak on rarely taken branches, e.g. under NO_CPUKINDS)",
